@@ -158,13 +158,17 @@ def enders(r, F):
 
 
 def recv_reset_rows(r, F):
-    """RST_STREAM received: closed-and-nothing-queued states stay; otherwise Closed(ErrorAfterEndStream) iff END_STREAM
-    had been received (whatever the reset code), else Closed(Error)"""
+    """RST_STREAM received: closed-and-nothing-queued states stay -- except a reset of our own that is only *scheduled*:
+    nothing has been sent for it yet, the peer's reset empties the send queue that would have carried it, and
+    Counts::transition_after does not release a stream whose reset is still scheduled, so it must become a remote reset
+    like any live state; otherwise Closed(ErrorAfterEndStream) iff END_STREAM had been received (whatever the reset
+    code), else Closed(Error)"""
     from .rfcstates import E, SI, CA
 
     def ref_recv_reset(s, l):
         queued = l == 'queued=true'
-        if R.to_rfc(s)[0] == 'closed' and not queued:
+        scheduled = s[2] == 'Closed' and s[3][0][2] == 'ScheduledLibraryReset'
+        if R.to_rfc(s)[0] == 'closed' and not queued and not scheduled:
             return ('unit', s)
         cause = 'ErrorAfterEndStream' if R.recv_end_stream_seen(s) else 'Error'
         return ('unit', E(SI, 'Closed', (E(CA, cause, (TOP,)),)))
